@@ -119,7 +119,9 @@ def o_preprocess_params(ctx):
     q = "cryomask.preprocess_params"
     m, fn = ctx.prog.func(q)
     ctx.touched(q)
-    sam = {"r": lambda g: float(g.choice([1, 2, 3, 5, 8, 13, 20, 2.5, 7.5])), "sigma": lambda g: float(g.choice([0.5, 1.0, 2.0, 3.0, 4.0, 6.0]))}
+    # radii include 0 and negative values: the inner solid of a shell thicker than twice its radius is asked for with radius - t/2 < 0
+    # and must come back empty, which it does because the radius is handed on as it is
+    sam = {"r": lambda g: float(g.choice([1, 2, 3, 5, 8, 13, 20, 2.5, 7.5, 0, -0.5, -1, -3])), "sigma": lambda g: float(g.choice([0.5, 1.0, 2.0, 3.0, 4.0, 6.0]))}
     grown = T("ceil", mk("add", sym("r"), mk("mul", sym("sigma"), const(5.0))))
     for outw, gauss, want, label in ((False, P("sigma"), sym("r"), "blur not outwards: radius unchanged (also when the radius is smaller than sigma)"),
                                      (True, P("sigma"), grown, "blur outwards: ceil(radius + 5 sigma)"),
